@@ -1,6 +1,7 @@
 SPECIFICATION Spec
 CONSTANTS
   ElemIgnore = FALSE
+  Shape <- NoShape
   MinVisSet <- Both
   File2Srcs <- None
   ClassHeads <- CmdHeads
